@@ -95,7 +95,9 @@ func verifRefParse(content string, id int, ignoreCosmetic bool) []verifScanned {
 // verifC11String: scanning an in-memory list == parsing it line by line, and every
 // yielded index retrieves the same rule.
 func verifC11String(n int, ignoreCosmetic int) {
-	content := verifString("content", n, "a \n\r")
+	// with the classification table of the driver (real NewRule on every line over {a,#,space}) a
+	// counterexample is replayable; lines outside the table stay uninterpreted
+	content := verifString("content", n, "a# \n\r")
 	id := 3
 	l := &StringRuleList{ID: id, RulesText: content, IgnoreCosmetic: ignoreCosmetic != 0}
 	want := verifRefParse(content, id, l.IgnoreCosmetic)
